@@ -15,18 +15,20 @@ L1 == [comps |-> <<"c1", "c2">>,
        resets |-> [c \in {"c1", "c2"} |-> IF c = "c1" THEN [r |-> 0] ELSE <<>>],
        plain |-> [c \in {"c1", "c2"} |-> IF c = "c1" THEN [p |-> 5] ELSE [q |-> 7]],
        feedbacks |-> {[o |-> "robot", key |-> "rk"], [o |-> "c1", key |-> "k1"]},
+       fbtypes |-> [k \in {"rk", "k1"} |-> IF k = "rk" THEN "int" ELSE "bool"],
        teleAuto |-> FALSE, modes |-> {}, defmode |-> None, period |-> 20000]
 L2 == [comps |-> <<"c1">>,
        has |-> [c \in {"c1"} |-> [setup |-> TRUE, on_enable |-> TRUE, on_disable |-> TRUE]],
        resets |-> [c \in {"c1"} |-> [r |-> 0]],
        plain |-> [c \in {"c1"} |-> [p |-> 5]],
        feedbacks |-> {[o |-> "c1", key |-> "k1"]},
+       fbtypes |-> [k \in {"k1"} |-> "int"],
        teleAuto |-> TRUE, modes |-> {"m1", "m2"}, defmode |-> "m1", period |-> 20000]
 L3 == [comps |-> <<"c1", "c2">>,
        has |-> [c \in {"c1", "c2"} |-> [setup |-> FALSE, on_enable |-> (c = "c2"), on_disable |-> TRUE]],
        resets |-> [c \in {"c1", "c2"} |-> IF c = "c1" THEN [r |-> 0, s |-> 3] ELSE [r |-> 1]],
        plain |-> [c \in {"c1", "c2"} |-> [p |-> 5]],
-       feedbacks |-> {},
+       feedbacks |-> {}, fbtypes |-> <<>>,
        teleAuto |-> FALSE, modes |-> {"m1"}, defmode |-> None, period |-> 5000]
 L4 == [L2 EXCEPT !.teleAuto = FALSE, !.defmode = None]
 
